@@ -27,6 +27,8 @@ RULE = ("case = (local space out of 19 class/symmetry pairs, N in 1..6 (7 for d=
         "non-trivial = at least one node was compared element-wise with NumPy or a measured number with a dense inner product")
 ASSUMPTIONS = ["NumPy matmul/vdot/kron/transposes on dense arrays of <= 4096 rows are the truth",
                "the dense truth of harness-built leaves is contracted from the same blocks passed to set_block",
+               "tolerances are CT*eps*scale with scale = max(dense norms of the operands, |factor| * prod_n |A_n|_F of the object): "
+               "rounding errors follow the norms of the site tensors, which exceed the norm of an ill-conditioned (non-canonical) chain",
                "to_numpy(legs=...) is the observation function (validated by C01); to_tensor() is cross-validated in-run "
                "against an independent NumPy contraction of the site tensors and against to_matrix()",
                "random_mps/random_mpo leaves have no independent truth: their observed dense image is taken as operand value",
@@ -429,6 +431,7 @@ class Env:
             ctx.violation("result-kind:" + op, f"{op}: result has nr_phys={y.nr_phys}, N={y.N}")
             raise Stop
         self.sigparts.append(node.desc())
+        sc = max(sc, R.cond_scale(y))
         try:
             self.compare(f"{op} {par if par else ''}", op, y, d, sc, full=root)
             if meta is not None:
@@ -547,9 +550,9 @@ class Env:
                 ctx.violation("random_mps:wrong-charge", f"random_{kind} n={q}: amplitude on basis states of charge {bad[0]}")
             if R.nrm(truth) == 0:
                 ctx.violation("random_mps:zero-state-returned", f"random_{kind} returned a vanishing state without raising")
-            sc = R.nrm(truth)
+            sc = max(R.nrm(truth), R.cond_scale(y))
         else:
-            sc = R.nrm(truth)
+            sc = max(R.nrm(truth), R.cond_scale(y))
             self.compare(f"leaf {src} {kind} q={q}", "leaf-" + src, y, truth, sc, full=True, ct=ct)
         if q != G.zero(loc.sym):
             ctx.count("nonzero_charge_leaves")
@@ -705,9 +708,9 @@ def fam_measure(E, idx):
             ops.append(o2[0])
             Ms = M + o2[1]
             kind = "measure_mpo:pbc+obc-sum"
-            sc = R.nrm(M) + o2[2]
+            sc = max(R.nrm(M), R.cond_scale(yop)) + o2[2]
         else:
-            sc = R.nrm(M)
+            sc = max(R.nrm(M), R.cond_scale(yop))
         exp = np.vdot(bra[1], Ms @ ket[1])
         got = mps.measure_mpo(bra[0], ops[0] if len(ops) == 1 else ops, ket[0])
         number_check(E, kind, got, exp, bra[2] * sc * ket[2], "measure_mpo with a periodic MPO")
@@ -791,7 +794,7 @@ def fam_zipper(E, idx):
         fac = rng.choice((1, 2.0, -0.5))
         if fac != 1:
             ya, Ma = fac * ya, fac * Ma
-        a = (ya, Ma, R.nrm(Ma))
+        a = (ya, Ma, max(R.nrm(Ma), R.cond_scale(ya)))
     else:
         a = E.eval(E.tree("mpo", rng.choice((0, 0, 1)), normal_only=True, q=zero if rng.random() < 0.8 else None))
     exact = a[1] @ b[1]
@@ -900,7 +903,7 @@ def fam_compression(E, idx):
         yo = ch.to_yastn()
         target, exact = [yo, k[0]], ch.dense() @ k[1]
         yexact = None
-        scale = R.nrm(ch.dense()) * k[2]
+        scale = max(R.nrm(ch.dense()), R.cond_scale(yo)) * k[2]
     ne = R.nrm(exact)
     if ne < 1e-3 * scale:
         ctx.count("compression_target_vanishes")
